@@ -226,6 +226,9 @@ class Run:
         f = st['f']
         args = list(st.get('args', []))
         kw = dict(st.get('kw', {}))
+        if st.get('alias') and args and isinstance(args[-1], (list, dict)):
+            args.append(args[-1])               # the caller passes one and the same container twice
+            kw = dict(kw, twin=[args[-1], args[-1]])
         if 'args_t' in st:          # arguments given as type-exact terms (subclass instances survive a replay file)
             args = [terms.from_term(t) for t in st['args_t']]
         if 'kw_t' in st:
@@ -246,6 +249,10 @@ class Run:
                 sub.script = st['body']
             run.invocations.append((run.build_no, st['s'], f, st.get('p'), terms.show(list(a))))
             e = run.ev(ev='invoke', recv=terms.to_term(list(a)), recvkw=terms.to_term(dict(k)))
+            if not (_is_tree(list(a)) and _is_tree(dict(k))):
+                # what a JSON round trip yields is a tree; positions that share one container are not "the
+                # round-tripped copies of the arguments" (ArgsRoundTripped)
+                e['recv'] = terms.to_term(['<one container at several positions>'] + list(a))
             if is_bf:
                 e['path_ok'] = (path_recv == run.sb.path(st['p']) and path_recv.__class__ is str)
             if st.get('mut_args'):
@@ -293,6 +300,8 @@ class Run:
             return ['E', x.__class__.__name__]
         e = self.ev(ev=endname, inv=state['invoked'], out='ok', err='', same=False,
                     ret=terms.to_term(ret), base=False)
+        if not _is_tree(ret):
+            e['ret'] = terms.to_term(['<one container at several positions>', ret])      # (ReturnMatches)
         if is_bf:
             e['real'] = _real_state(self.sb.path(st['p']))
         shown = terms.show(ret)
@@ -390,6 +399,9 @@ class Run:
                     v = NotJson()
                 elif st.get('container'):
                     v = ['r' + digest([fr.f, terms.show(fr.ver), fr.obs]), [1, [2]], {'a': [3], 'b': {'c': []}}]
+                    if int(digest([fr.f, fr.obs, 'twin']), 16) % 3 == 0:
+                        shared = [4]
+                        v.append({'x': shared, 'y': shared})        # one container at two positions
                 else:
                     v = 'r' + digest([fr.f, terms.show(fr.ver), fr.obs])
                 self.ev(ev='fn_end', out='return', v=terms.to_term(v), x=0, prop=False, err='')
@@ -638,9 +650,11 @@ class Run:
                     continue
                 a0 = rec['args'][0] if rec['args'] else ''
                 if rec['call'] in ('mkdir', 'makedirs'):
-                    made.setdefault(a0, rec['thread'])
-                elif rec['call'] == 'rmdir' and a0 in made and made[a0] != rec['thread']:
-                    foreign_rm.append([rec['thread'], made[a0], a0[-60:]])
+                    made[a0] = rec['thread']            # the thread that made the directory that is there now
+                elif rec['call'] == 'rmdir':
+                    if a0 in made and made[a0] != rec['thread']:
+                        foreign_rm.append([rec['thread'], made[a0], a0[-60:]])
+                    made.pop(a0, None)
         if foreign_rm:      # placed before the calls of the `par`, so that it is judged whatever they did
             self.ev(ev='foreign_rmdir', what=foreign_rm[:3])
 
@@ -819,14 +833,16 @@ class Run:
         root becomes an `fs` event (source path of a rename, destination of a replace)."""
         if name not in ('rename', 'remove', 'replace', 'rmdir'):
             return
-        try:
-            a = os.fsdecode(args[1] if name == 'replace' else args[0])
-        except Exception:
-            return
         root = self.sb.root
-        if not (a == root or a.startswith(root + os.sep)):
-            return
-        self.ev(ev='fs', call=name, p=self.sb.unpath(a))
+        # a rename moves its source away; a replace does that too and overwrites its destination
+        paths = [(name, args[0])] if name != 'replace' else [('rename', args[0]), ('replace', args[1])]
+        for call, arg in paths:
+            try:
+                a = os.fsdecode(arg)
+            except Exception:
+                continue
+            if a == root or a.startswith(root + os.sep):
+                self.ev(ev='fs', call=call, p=self.sb.unpath(a))
 
     def run(self):
         if self.interposer is not None and self.sc.get('fslog'):
@@ -872,6 +888,19 @@ class Run:
         if getattr(self, 'unjudged', False):
             out['unjudged'] = True
         return out
+
+
+def _is_tree(v, seen=None):
+    seen = set() if seen is None else seen
+    if isinstance(v, (list, dict)):
+        if id(v) in seen:
+            return False
+        seen.add(id(v))
+    if isinstance(v, (list, tuple)):
+        return all(_is_tree(x, seen) for x in v)
+    if isinstance(v, dict):
+        return all(_is_tree(x, seen) for x in v.values())
+    return True
 
 
 def mutate_in_place(v, depth=0):
